@@ -1719,3 +1719,58 @@ Section SetupStatements.
       exfalso. eapply release_reuse; eauto.
   Qed.
 End SetupStatements.
+
+(* ====================================================================== allocateBlock fails only when the address is full *)
+Lemma alloc_in_word_complete fuel : forall w base bit total b,
+  bit <= b -> b < bit + N.of_nat fuel -> N.testbit w b = false -> base + b < total ->
+  exists idx, alloc_in_word fuel w base bit total = Some (Some idx).
+Proof.
+  induction fuel as [|f IH]; intros w base bit total b L1 L2 T B; [lia|]. cbn [alloc_in_word].
+  destruct (N.leb_spec total (base + bit)) as [Q|Q]; [lia|].
+  destruct (N.testbit w bit) eqn:TB; [|eauto].
+  assert (bit <> b) by (intros ->; congruence).
+  apply (IH w base (bit + 1) total b); auto; lia.
+Qed.
+Lemma alloc_in_word_minus1 fuel : forall w base bit total,
+  alloc_in_word fuel w base bit total = Some None -> exists b', b' < bit + N.of_nat fuel /\ total <= base + b'.
+Proof.
+  induction fuel as [|f IH]; intros w base bit total H; [discriminate|]. cbn [alloc_in_word] in H.
+  destruct (N.leb_spec total (base + bit)) as [Q|Q]; [exists bit; split; [lia|exact Q]|].
+  destruct (N.testbit w bit); [|discriminate].
+  destruct (IH _ _ _ _ H) as (b' & ? & ?). exists b'. split; [lia|auto].
+Qed.
+Lemma all_ones_bits b : b < 64 -> N.testbit all_ones b = true.
+Proof. intros H. change all_ones with (N.ones 64). apply N.ones_spec_low. exact H. Qed.
+
+Lemma alloc_words_complete ws : forall i total idx (j : nat),
+  (j < length ws)%nat -> idx / 64 = i + N.of_nat j -> N.testbit (nth j ws 0) (idx mod 64) = false -> idx < total ->
+  alloc_words ws i total <> None.
+Proof.
+  induction ws as [|w r IH]; intros i total idx j L D T B; [simpl in L; lia|]. cbn [alloc_words].
+  assert (M : idx mod 64 < 64) by (apply N.mod_lt; lia).
+  assert (E : idx = 64 * (idx / 64) + idx mod 64) by (apply N.div_mod; lia).
+  destruct j as [|j].
+  - cbn [nth] in T. destruct (N.eqb_spec w all_ones) as [->|NE].
+    + rewrite all_ones_bits in T by exact M. discriminate.
+    + destruct (alloc_in_word_complete 64 w (i * 64) 0 total (idx mod 64)) as (x & ->); try lia; [exact T|]. discriminate.
+  - cbn [nth length] in *. assert (Hrec : alloc_words r (i + 1) total <> None) by (apply (IH (i + 1) total idx j); auto; lia).
+    destruct (w =? all_ones); [exact Hrec|].
+    destruct (alloc_in_word 64 w (i * 64) 0 total) as [[x|]|] eqn:A; [discriminate| |exact Hrec].
+    destruct (alloc_in_word_minus1 _ _ _ _ _ A) as (b' & Hb & Ht). lia.
+Qed.
+
+(* allocateBlock returns -1 exactly when no block below TotalBlocks is free (bitmap long enough for TotalBlocks) *)
+Lemma allocate_block_none_iff a : (N.to_nat ((a_total a + 63) / 64) <= length (a_bits a))%nat ->
+  (allocate_block a = None <-> forall idx, idx < a_total a -> test_bit (a_bits a) idx = true).
+Proof.
+  intros LEN. split.
+  - intros H idx B. destruct (test_bit (a_bits a) idx) eqn:T; [reflexivity|]. exfalso.
+    unfold allocate_block in H. destruct (alloc_words (a_bits a) 0 (a_total a)) eqn:A; [discriminate|].
+    revert A. apply (alloc_words_complete (a_bits a) 0 (a_total a) idx (word_of idx)).
+    + pose proof (word_in_range _ _ B). lia.
+    + unfold word_of. lia.
+    + exact T.
+    + exact B.
+  - intros H. destruct (allocate_block a) as [[idx a']|] eqn:A; [|reflexivity].
+    destruct (allocate_block_spec _ _ _ A) as (B & T & _). rewrite H in T by exact B. discriminate.
+Qed.
